@@ -10,6 +10,7 @@ TITLE = 'CScriptNum decode (all byte strings of length 0..6, nMaxNumSize 4/5, mi
 TUS = ['script', 'value', 'strenc', 'dbgscript', 'sha256', 'ripemd160', 'hash', 'uint256', 'base58', 'bech32', 'pubkey']
 SHIMS = ['num']
 NATIVE_TUS = _b.ALL_NATIVE
+PARTS = ['C18lit']
 FUNCTIONS = ['CScriptNum::CScriptNum(vch, fRequireMinimal, nMaxNumSize)', 'CScriptNum::set_vch', 'CScriptNum::serialize', 'CScriptNum::getvch', 'CScriptNum::getint', 'Value(int64_t)::hex_str', 'Value::int_value', 'Value::data_value', 'HexStr']
 ASSUMPTIONS = ['allocation never fails', 'verdicts are for the clang-14 -O1 IR of the working tree']
 OUTSIDE = ['byte strings longer than 6 bytes (rejected by length alone: same code path as length 5/6)', 'decimal literal parsing (atoll) is covered by C07']
